@@ -175,7 +175,7 @@ pub fn call(f: &str, a: &Value) -> Out {
                 a[5].as_u64().unwrap() as u8,
                 a[6].as_u64().unwrap() as u8,
             ) {
-                Ok(()) => Out::Ok(Value::Null),
+                Ok(_) => Out::Ok(Value::Null),
                 Err(e) => Out::Err(e.to_string()),
             }
         }
@@ -200,7 +200,7 @@ pub fn call(f: &str, a: &Value) -> Out {
                 &[Uint128::new(u128_of(&a[1])), Uint128::new(u128_of(&a[2]))],
                 &pools,
             ) {
-                Ok(()) => Out::Ok(Value::Null),
+                Ok(_) => Out::Ok(Value::Null),
                 Err(e) => Out::Err(e.to_string()),
             }
         }
@@ -226,7 +226,7 @@ pub fn call(f: &str, a: &Value) -> Out {
                 funds,
             };
             match asset.assert_sent_native_token_balance(&info) {
-                Ok(()) => Out::Ok(Value::Null),
+                Ok(_) => Out::Ok(Value::Null),
                 Err(e) => Out::Err(e.to_string()),
             }
         }
@@ -248,7 +248,7 @@ pub fn call(f: &str, a: &Value) -> Out {
                 })
                 .unwrap_or_default();
             match halo_router::assert::assert_operations(&ops) {
-                Ok(()) => Out::Ok(Value::Null),
+                Ok(_) => Out::Ok(Value::Null),
                 Err(e) => Out::Err(e.to_string()),
             }
         }
